@@ -27,6 +27,8 @@ THEOREMS = [
     "model_is_denotation", "equal_denotation_equal_views", "group_wrapper_flat", "global_elements_by_the_rules",
     "deref_sorted_is_resolution", "merge_any_order_when_targets_stable", "deref_wrong_order_refuted",
     "wsdl_link_order_independent", "resolve_order_immaterial", "wrapped_rule",
+    "schema_merge_is_union", "merge_symbol_spaces_separate", "merge_wrong_table_refuted",
+    "merged_tables_are_the_declarations",
 ]
 
 PRE_D = "From SV Require Import Lib.Base C07.DepSort."
@@ -318,6 +320,12 @@ class CT(object):
         self.name, self.base, self.content, self.attrs = name, base, content, attrs
 
 
+class CGAttr(object):
+    """top-level <attribute name= type=/>"""
+    def __init__(self, name, builtin):
+        self.name, self.builtin = name, builtin
+
+
 class CGroupDef(object):
     def __init__(self, name, content):
         self.name, self.content = name, content
@@ -332,10 +340,17 @@ class Iface(object):
     """An abstract interface: family schema + operations, and what may be
     rewritten without changing it."""
 
-    def __init__(self, S, ops):
+    def __init__(self, S, ops, extras=()):
         self.S, self.ops = S, ops
+        # further global declarations of the interface that no operation uses: ("element", ns, name, tref)
+        # and ("attribute", ns, name, builtin); they share their names with types / elements of the same
+        # namespace (XSD keeps elements, types, attributes, groups and attribute groups in separate symbol spaces)
+        self.extras = list(extras)
         from . import family as F
         refs = {}           # (ns, name) -> list of referrers ("elem", owner CType or None, Elem) | ("part",)
+        for kind, ns, name, tr in self.extras:
+            if kind == "element" and tr[0] == "n":
+                refs.setdefault((tr[1], tr[2]), []).append(("extra", None, name))
         for t in S.types:
             for p, _ in S.flat(t):
                 if isinstance(p, F.Elem) and p.tref[0] == "n":
@@ -411,6 +426,7 @@ class Plan(object):
             self.wsdl_default_tns = False
             self.efd_flip = {}
             self.decl_on_use = False
+            self.collide_names = False
             self.seed = 0
             return
         self.seed = rng.randrange(1 << 30)
@@ -464,6 +480,7 @@ class Plan(object):
         self.local_wsdl_decl = r() < 0.3    # prefixes declared on message/portType/binding/service
         self.wsdl_default_tns = r() < 0.2   # unprefixed WSDL references under xmlns="<tns>"
         self.decl_on_use = self.ENABLE_DECL_ON_USE and r() < 0.15
+        self.collide_names = r() < 0.5      # groups / attribute groups named like the type they come from
 
     def features(self):
         f = set()
@@ -481,6 +498,8 @@ class Plan(object):
             f.add("mixed-elementFormDefault")
         if self.decl_on_use:
             f.add("prefix-declared-on-port-or-input")
+        if self.collide_names and (self.groups or self.agroups):
+            f.add("same-name-other-symbol-space")
         if self.shuffle:
             f.add("declaration-order")
         if self.wsdl_shuffle:
@@ -509,7 +528,8 @@ def build_ast(iface, plan):
         rng_ = plan.agroups.get((t.ns, t.name))
         if rng_:
             i, j = rng_
-            gname = fresh("ag")
+            # attribute groups / groups may be named like the type they are factored from (separate symbol spaces)
+            gname = t.name if plan.collide_names else fresh("ag")
             decls[t.ns].append((("agroup", gname), CAGroupDef(gname, attrs[i:j])))
             attrs = attrs[:i] + [CAG((t.ns, gname))] + attrs[j:]
         return CT(t.name if named else None, t.base, content, attrs)
@@ -539,7 +559,7 @@ def build_ast(iface, plan):
             decls[t.ns].append((("group", gname), CGroupDef(gname, CC("sequence", False, kids[i:j]))))
             kids = kids[:i] + [CG((t.ns, gname), False)] + kids[j:]
         if id(p) in plan.groups:
-            gname = fresh("g")
+            gname = t.name if (plan.collide_names and any(p is c for c in t.content)) else fresh("g")
             decls[t.ns].append((("group", gname), CGroupDef(gname, CC(p.kind, False, kids))))
             return CG((t.ns, gname), p.opt)
         return CC(p.kind, p.opt, kids)
@@ -548,6 +568,11 @@ def build_ast(iface, plan):
         if (t.ns, t.name) in plan.anon:
             continue
         decls[t.ns].append((("type", t.name), conv_type(t)))
+    for kind, ns, name, tr in iface.extras:
+        if kind == "element":
+            decls[ns].append((("element", name), CE(name=name, tref=tr)))
+        else:
+            decls[ns].append((("gattr", name), CGAttr(name, tr)))
     for op in iface.ops:
         if op.style == "wrapped":
             tref, anon = conv_tref(("n",) + tuple(op.in_type), 0)
@@ -685,6 +710,8 @@ def write_decl(c, d, ind="      "):
         return write_type(c, d, ind)
     if isinstance(d, CE):
         return write_particle(c, d, ind)
+    if isinstance(d, CGAttr):
+        return '%s<%s name="%s" type="%s"/>' % (ind, c.x("attribute"), d.name, c.tref(("b", d.builtin)))
     if isinstance(d, CGroupDef):
         return "%s<%s name=\"%s\">\n%s\n%s</%s>" % (ind, c.x("group"), d.name, write_particle(c, d.content, ind + "  "),
                                                    ind, c.x("group"))
@@ -1080,7 +1107,17 @@ def gen_iface(rng):
         ops.append(F.Op("bare1", "bare", parts=[("h1", ("b", rng.choice(F.BUILTINS)))]))
     ops.append(F.Op("rpc0", "rpc", parts=[("x", ("n", tr.ns, tr.name)), ("y", ("b", b2))],
                     body_ns=rng.randrange(len(S.namespaces))))
-    return Iface(S, ops)
+    # same-named declarations in different symbol spaces, in every namespace: an element named like a type
+    # (and of that type), a global attribute named like a type, one named like a global element
+    extras = []
+    for ns in range(len(S.namespaces)):
+        ts = [t for t in S.types if t.ns == ns]
+        if ts:
+            t = rng.choice(ts)
+            extras.append(("element", ns, t.name, ("n", t.ns, t.name)))
+            extras.append(("attribute", ns, rng.choice(ts).name, "string"))
+    extras.append(("attribute", 0, ops[0].name, "int"))
+    return Iface(S, ops, extras)
 
 
 def strip_anon(iface, v):
@@ -1249,6 +1286,8 @@ def concrete_lit(iface, plan, blocks, I):
                                                    clist([attr(a) for a in d.attrs], "cattr")))
             elif isinstance(d, CE):
                 dl.append("(DElem %s %s %s %s)" % (cN(I(d.name)), tref(d.tref, d.anon), cbool(d.nillable), dflt(d.default)))
+            elif isinstance(d, CGAttr):
+                continue                     # global attributes are not part of the Coq model
             elif isinstance(d, CGroupDef):
                 dl.append("(DGroup %s %s)" % (cN(I(d.name)), part(c, d.content)))
             else:
@@ -1313,6 +1352,17 @@ def obs_schema(iface, client):
             except Exception as ex:  # noqa
                 elems.append((nm, tr, ("!", type(ex).__name__)))
     return types, elems
+
+
+def obs_tables(iface, client, I):
+    """keys of the merged schema's tables, as a Coq literal list (dkind * list qn)"""
+    from . import family as F
+    sch = client.wsdl.schema
+    out = []
+    for kind, tbl in (("KType", sch.types), ("KElem", sch.elements), ("KGroup", sch.groups), ("KAGroup", sch.agrps)):
+        out.append("(%s, %s)" % (kind, clist(["(%s, %s)" % (cN(F.ns_to_id(iface.S, u)), cN(I(n)))
+                                               for n, u in tbl.keys()], "qn")))
+    return clist(out, "dkind * list qn")
 
 
 def schema_view_lits(iface, I, view):
@@ -1523,6 +1573,7 @@ def toggles(plan, iface):
                     setattr(q, "block_local", [[{} for _ in range(3)] for _ in plan.nblocks]),
                     setattr(q, "local_wsdl_decl", False))),
         ("redundant-attributes", plan.redundant, lambda q: setattr(q, "redundant", False)),
+        ("same-name-other-symbol-space", plan.collide_names, lambda q: setattr(q, "collide_names", False)),
     ]
     for name, present, f in generic:
         if present:
@@ -1624,6 +1675,51 @@ class ObsEnc(object):
             cN(I("text:" + dflt) if dflt is not None else 0))
 
 
+DIRECTED_NAMED = """
+  <xsd:complexType name="T"><xsd:sequence><xsd:element name="a" type="xsd:string" nillable="true"/></xsd:sequence></xsd:complexType>
+  <xsd:element name="Wrapper"><xsd:complexType><xsd:sequence>
+     <xsd:element name="e" type="tns:T" minOccurs="0"/></xsd:sequence></xsd:complexType></xsd:element>"""
+DIRECTED_ANON = """
+  <xsd:element name="Wrapper"><xsd:complexType><xsd:sequence>
+     <xsd:element name="e" minOccurs="0"><xsd:complexType><xsd:sequence><xsd:element name="a" type="xsd:string" nillable="true"/></xsd:sequence></xsd:complexType></xsd:element>
+  </xsd:sequence></xsd:complexType></xsd:element>"""
+
+
+def run_directed(ck):
+    """One fixed instance per run of the two listed classes that the random
+    renderings only hit now and then, so that they are re-observed on every seed."""
+    from . import sudsutil as U
+    # an optional element written with a named / an anonymous type, None for its required nillable child
+    bodies = []
+    for sch in (DIRECTED_NAMED, DIRECTED_ANON):
+        c, err = load_client(U.doc_wsdl(sch))
+        if c is None:
+            bodies.append(("load-error", err))
+            continue
+        r = request(c, "dummy", "f", (), {"e": {"a": None}})
+        bodies.append([n.canon() for n in r[1]] if r[0] == "ok" else r[:2])
+    ck.seen(("directed", "anonymous-optional"))
+    ck.count("directed-instances")
+    if bodies[0] != bodies[1]:
+        ck.failing_input(PROPOSED_E, "f(e={'a': None}) differs between the named and the anonymous spelling of e's type",
+                         {"part": "directed", "named_schema": DIRECTED_NAMED, "anonymous_schema": DIRECTED_ANON,
+                          "named": repr(bodies[0]), "anonymous": repr(bodies[1])})
+    # the prefix of binding= declared on the wsdl:port element itself
+    plain = U.doc_wsdl(DIRECTED_NAMED)
+    moved = plain.replace(b'<wsdl:port name="dummy" binding="tns:dummy">',
+                          b'<wsdl:port xmlns:zz="my-namespace" name="dummy" binding="zz:dummy">')
+    assert moved != plain
+    c1, e1 = load_client(plain)
+    c2, e2 = load_client(moved)
+    ck.seen(("directed", "prefix-on-port"))
+    ck.count("directed-instances")
+    if (c1 is None) != (c2 is None):
+        ck.failing_input(PROPOSED_D, "a WSDL loads with the binding= prefix declared on wsdl:definitions but not "
+                         "with it declared on the wsdl:port element itself: %s" % (e2 or e1),
+                         {"part": "directed", "wsdl": moved.decode("utf-8"), "baseline_wsdl": plain.decode("utf-8"),
+                          "error": e2 or e1})
+
+
 def run_render(ck, unproved):
     from . import family as F
     from . import sudsutil as U  # noqa
@@ -1633,7 +1729,7 @@ def run_render(ck, unproved):
     n_ifaces = 36 if ck.tier == "quick" else 400
     K = 4 if ck.tier == "quick" else 6
     reps = 2 if ck.tier == "quick" else 4
-    W, B, R, PC, FC, EC, SC, ST, WL = [], [], [], [], [], [], [], [], []       # (coq case, meta)
+    W, B, R, PC, FC, EC, SC, ST, WL, MC = [], [], [], [], [], [], [], [], [], []       # (coq case, meta)
     deviations = {}                                     # finding key -> first payload
     feature_count = {}
 
@@ -1759,6 +1855,13 @@ def run_render(ck, unproved):
                 continue
             I = F.new_interner()
             tl, el = schema_view_lits(iface, I, views[j])
+            try:
+                MC.append(("(mkMC %s %s)" % (concrete_lit(iface, plan, blocks, I), obs_tables(iface, c, I)),
+                           ("merged tables", [], si, sorted(plan.features()), wsdl)))
+                ck.count("merged-table-views")
+                ck.seen(("tables", si, j))
+            except Exception:  # noqa
+                pass
             SC.append(("(mkSC %s %s %s %s)" % (concrete_lit(iface, plan, blocks, I), AbsPrinter(iface, I).schema(), tl, el),
                        ("schema objects", by_j[j], si, bool(plan.efd_flip))))
             ck.seen(("schema", si, j))
@@ -1944,6 +2047,18 @@ def run_render(ck, unproved):
             ck.seen(("deref-chain", label), nontrivial=True)
             ck.count("dereference-calls-on-chains")
     judge("wsdl", WL, "wcase", "wsdl_link_spec_ok", "wsdl_link_agrees", shard=60)
+    if MC:
+        r = ck.run_cases("tables", PRE_R, "mcase", [c for c, _ in MC], ["merge_agrees", "merge_spec_ok"], shard=40)
+        bad = set(r["merge_spec_ok"])
+        for i in sorted(bad)[:2]:
+            ck.failing_input("C07:schema-merge-tables",
+                             "the merged schema's tables (types / elements / groups / attribute groups) are not "
+                             "the declarations of all namespaces, each in its own symbol space",
+                             {"part": "render", "observable": "merged tables", "rendering_features": MC[i][1][3],
+                              "wsdl": MC[i][1][4].decode("utf-8"), "case": MC[i][0]})
+        dis = [i for i in r["merge_agrees"] if i not in bad]
+        if dis:
+            unproved.append({"correspondence": "merge_agrees", "count": len(dis), "first": {"case": MC[dis[0]][0]}})
     if ST:
         r = ck.run_cases("store", "From SV Require Import Lib.Base C07.DepSort C07.Store.", "stcase",
                          [c for c, _ in ST], ["store_deref_agrees", "store_deref_spec_ok", "store_in_guard"], shard=25)
@@ -2028,6 +2143,7 @@ def run(ck):
         run_qualify(ck, unproved)
     t2 = time.time()
     if not only or "render" in only:
+        run_directed(ck)
         run_render(ck, unproved)
     t3 = time.time()
     ck.extra["wall_by_part_s"] = {"depsort": round(t1 - t0, 1), "qualify": round(t2 - t1, 1), "render": round(t3 - t2, 1)}
